@@ -68,7 +68,10 @@ def generic_replay(pid, path):
         wp = os.path.join(d, "w.wb")
         json.dump(rp["world"], open(wp, "w"))
         lines.append("world %s %s %d" % (rp.get("slot", 0), wp, rec.get("seed", 1)))
-    lines.append(rp["probe_line"])
+    pl = rp["probe_line"]
+    if pl.split()[:1] == ["wsurf"] and "slot" not in rp:
+        pl = " ".join(["wsurf", "0"] + pl.split()[2:])       # the world of the replay sits in slot 0
+    lines.append(pl)
     out = common.run_probe(lines, cwd=d)
     for l, o in zip(lines, out):
         print("  %s\n    -> %s" % (l[:200], " ".join(str(common.unhex(t)) if t not in ("ok", "throw") and not t.startswith("error") else t for t in o.split())[:600]))
